@@ -114,6 +114,9 @@ def via_trace(scn, rng, mode=None):
 def sys_execute(scn, rng):
     from .. import sysdrv
     factory = None
+    if scn.get("big") and "pipes" not in scn:
+        from ..sysgen import expand_big
+        scn = expand_big(scn)
     if scn.get("via_trace"):
         import io
         from ..tracecmp import scn_to_rows, rows_to_text
